@@ -18,7 +18,7 @@ CHECKS = {
     "C01": dict(
         level="translation_validation", design="4/C01",
         technique="translation validation: Lean 4 kernel-checked equivalence checker (check_sound) fed with the real compiler's output vs the Lean source semantics, on generated programs",
-        text="Every generated program is compiled by the real compiler and each routine is validated against the Lean small-step source semantics on the Lean SSB machine by a checker whose soundness (equal operation/test traces for every outcome of every test, halting preserved) is a kernel-checked theorem over all transition systems and relations. A verdict is per program. In addition, kernel-checked theorems about a statement-by-statement Lean model of the compiler (tied to the real compiler by the exact op-for-op correspondence of C03 on every run): backend_preserves (strip_last_label, LabelFinalizer and OpsLabelJumpToRemover preserve behaviour for ALL well-formed labelled code), frontend_wfl (the front end yields well-formed labelled code for ALL programs under the decidable guard FrontGuard), compile_backend_equiv, and compile_correct_F0 / _F1 / _F2 / _F3 / _F4: for ALL programs of the fragments F0 (straight-line code, with-blocks, inline contexts), F1 (+ if/elseif/else with ||, not, lone-jump folding, empty blocks, any nesting), F2 (+ forever/while/while not/for with continue and break_loop) F3 (+ switch/case/default/break with fall-through and shared blocks) and F4 (+ labels, jump and call anywhere, also into other routines; every label defined once and every mentioned label defined) the source semantics of every routine is behaviourally equivalent to the SSB machine on the model's compile result. About 80 % of the generated programs lie in F4 (evidence: in_F4). Macros, message switches as statements and a few degenerate switch shapes are covered by per-program validation only, hence the level translation_validation for the property as a whole.",
+        text="Every generated program is compiled by the real compiler and each routine is validated against the Lean small-step source semantics on the Lean SSB machine by a checker whose soundness (equal operation/test traces for every outcome of every test, halting preserved) is a kernel-checked theorem over all transition systems and relations. A verdict is per program. In addition, kernel-checked theorems about a statement-by-statement Lean model of the compiler (tied to the real compiler by the exact op-for-op correspondence of C03 on every run): backend_preserves (strip_last_label, LabelFinalizer and OpsLabelJumpToRemover preserve behaviour for ALL well-formed labelled code), frontend_wfl (the front end yields well-formed labelled code for ALL programs under the decidable guard FrontGuard), compile_backend_equiv, and compile_correct_F0 / _F1 / _F2 / _F3 / _F4 / _F5: for ALL programs of the fragments F0 (straight-line code, with-blocks, inline contexts), F1 (+ if/elseif/else with ||, not, lone-jump folding, empty blocks, any nesting), F2 (+ forever/while/while not/for with continue and break_loop) F3 (+ switch/case/default/break with fall-through and shared blocks) and F4 (+ labels, jump and call anywhere, also into other routines; every label defined once and every mentioned label defined) and F5 (+ macros in one file: any definition order, nested calls, labels private to each expansion, return; macro names and variables distinct, macro bodies mention only their own labels) the source semantics of every routine is behaviourally equivalent to the SSB machine on the model's compile result. About 95 % of the generated programs lie in F4/F5 (evidence: in_F4, in_F5). Imports, a folded single-exit case block into which control may fall, and a plain op named Return are covered by per-program validation only, hence the level translation_validation for the property as a whole.",
         note=TV_NOTE + "The ANTLR parser and the compiler are not modelled."),
     "C03": dict(
         level="proof", design="4/C03",
@@ -273,8 +273,11 @@ CHECKS = {
                   "MacroResolutionOrderVisitor (igraph vertex order = order of first mention, in_edges, _check_cycles, the ordering loop of repair 0989cb8 statement by statement), MacroVisitor's sort and _resolve_imported_file + exact "
                   "model-vs-implementation comparison (resolution order of every compiled file, resolved paths on the real temporary tree) + property oracles on the real outputs",
         text="ONE category is claimed for the whole property: translation validation, because its first sentence (compiled routines behave like the program with every macro call "
-             "replaced by the body, parameters substituted, return leaving only the macro, labels private per expansion) is decided per generated program by a proven checker, not by a "
-             "forall-programs theorem about macro expansion (ExplorerScriptMacro.build is not modelled). Each program is validated twice: against the Lean semantics in which a macro call "
+             "replaced by the body, parameters substituted, return leaving only the macro, labels private per expansion) is decided per generated program by a proven checker for the property as a whole (imports and the real ExplorerScriptMacro.build stay per program); "
+             "for single-file programs it is ALSO a kernel-checked theorem about the compiler model ESV.Comp (tied op for op to the real compiler by C03): compile_correct_F5 - for ALL "
+             "programs of the decidable fragment F5Prog (all statement forms, macros in any definition order under any resolution order for which compileMacros succeeds, nested calls, "
+             "labels private to each expansion, return; macro names and variables distinct, macro bodies mention only their own labels; 96.6 % of the generated single-file programs: "
+             "evidence in_F5) the source semantics in which a macro call IS the inlined body is behaviourally equivalent to the SSB machine on the compile result. Each program is validated twice: against the Lean semantics in which a macro call "
              "IS the inlined body, and against the real compiler's output for the textually inlined program; all definition orders of a macro set must compile and be pairwise equivalent. "
              "The other two sentences are backed by kernel-checked theorems for ALL inputs about faithful models, and since /repo commit 0989cb8 (the repair this check proposed, "
              "now the code) the ordering statements hold IN FULL, without guard: the cycle check rejects exactly the cyclic call relations (cycle_detected_iff); the ordering loop never fails "
